@@ -336,6 +336,11 @@ class Runner:
                 cols = [numpy.abs(c).astype(mixed[i % 3]) if kinds_unsigned and c.dtype.kind not in "b" else c.astype(mixed[i % 3]) for i, c in enumerate(_cols(p))]
                 # without a dtype argument the result has numpy's common type of all coefficients
                 cols = [numpy.array(c) for c in cols]
+                if step.get("value", 0) % 3 == 1 and len(cols) >= 2:
+                    # the coefficient of the widest type is zero everywhere: the default type is still the common type
+                    # of the coefficients as given, whether or not that term survives
+                    widest = max(range(len(cols)), key=lambda i: (numpy.result_type(cols[i].dtype, *[c.dtype for c in cols]) == cols[i].dtype, cols[i].dtype.itemsize))
+                    cols[widest] = numpy.zeros_like(cols[widest])
                 explicit = cols[0].dtype if step["mixed"][0] < step["mixed"][1] else None
                 expect_dtype = explicit if explicit is not None else numpy.result_type(*cols)
                 if numpy.dtype(expect_dtype).kind in "ub":
